@@ -59,6 +59,9 @@ pub struct SimSpec {
     /// see Sim::status_script (None: "R")
     #[serde(default)]
     pub status_script: Option<String>,
+    /// see Sim::status_amounts
+    #[serde(default)]
+    pub status_amounts: Vec<u64>,
 }
 
 #[derive(Serialize, Deserialize, Clone, Debug, PartialEq)]
@@ -126,6 +129,7 @@ pub fn run_scenario(sc: &Scenario) -> Trace {
     if let Some(s) = &sc.sim.status_script {
         sim.status_script = s.clone();
     }
+    sim.status_amounts = sc.sim.status_amounts.clone();
     sim.card_replies = sc.sim.card_replies.iter().map(|h| crate::engine::unhex(h)).collect();
     sim.reversal_status = sc.sim.reversal_status.iter().map(|h| crate::engine::unhex(h)).collect();
     sim.chatter = sc.sim.chatter.iter().map(|h| crate::engine::unhex(h)).collect();
